@@ -123,13 +123,20 @@ def _run_verus_unit(u, tier):
     # for. Such callees are looked up in /repo and stubbed WITHOUT a contract (arbitrary
     # result, no effect on &mut arguments assumed): whatever the caller's postcondition
     # needs from them then fails as a named obligation instead of a type error.
-    if r.undecided and 'cannot find function' in r.undecided:
+    if r.undecided and ('cannot find function' in r.undecided or 'no method named' in r.undecided):
         names = sorted(set(re.findall(r'cannot find function `(\w+)` in this scope', r.raw_stderr)))
         stubs = []
         for nm in names:
             hdr = _find_free_fn_header(nm)
             if hdr:
                 stubs.append('// auto-stub (no contract) for a callee that is not under contract: %s\n#[verifier::external_body]\npub %s { unimplemented!() }\n' % (nm, hdr))
+        # the same for a method of a type the unit knows (`x.new_method(..)`): its real header,
+        # inside an impl block of that type, without a contract
+        for (nm, ty) in sorted(set(re.findall(r'no method named `(\w+)` found for (?:struct|enum) `(\w+)(?:<[^`]*>)?`', r.raw_stderr))):
+            hdr = _find_method_header(nm, ty)
+            if hdr:
+                names.append('%s::%s' % (ty, nm))
+                stubs.append('// auto-stub (no contract) for a method that is not under contract: %s::%s\n%s {\n#[verifier::external_body]\npub %s { unimplemented!() }\n}\n' % (ty, nm, hdr[0], hdr[1]))
         if stubs and '\n} // verus!' in gen.text:
             text2 = gen.text.replace('\n} // verus!', '\n' + '\n'.join(stubs) + '\n} // verus!', 1)
             open(main_path, 'w').write(text2)
@@ -271,6 +278,29 @@ def _find_free_fn_header(name):
             continue
         hdr, _ = rewrite.r12_strip_comments(f.header)
         return ' '.join(hdr.split())
+    return None
+
+
+def _find_method_header(name, ty):
+    """(impl header, fn header) of `fn name` inside an `impl .. ty ..` block somewhere under /repo"""
+    import subprocess
+    from . import extract, rewrite
+    try:
+        out = subprocess.run(['grep', '-rlE', r'fn\s+%s\b' % name, '/repo/crates', '/repo/relay-crates', '--include=*.rs'],
+                             capture_output=True, text=True).stdout.split()
+    except Exception:
+        return None
+    for path in out:
+        rel = os.path.relpath(path, '/repo')
+        text = open(path).read()
+        for m in re.finditer(r'^impl(?:<[^>{]*>)?\s+%s(?:<[^>{]*>)?\s*\{' % re.escape(ty), text, re.M):
+            within = m.group(0)[:-1].strip()
+            try:
+                f = extract.find_fn(rel, name, within)
+            except Exception:
+                continue
+            hdr, _ = rewrite.r12_strip_comments(f.header)
+            return (within, ' '.join(hdr.split()))
     return None
 
 
